@@ -240,7 +240,7 @@ def c04_stages(tier):
 
 def c05_stages(tier):
     # histories, pruning pipelines, and the witness-repair heuristic mirror_points on its own
-    return history_stages(tier) + prune_stages(tier) + [Stage('mirror-q', 'Trace_Linalg', mc=('MC_Linalg', 'MC_Linalg_mirror_q.cfg'), shard_events=400, mc_workers=12)]
+    return history_stages(tier) + prune_stages(tier) + [DS('slice-q', 'MC_Distill_slice_q.cfg', shard_events=300), Stage('mirror-q', 'Trace_Linalg', mc=('MC_Linalg', 'MC_Linalg_mirror_q.cfg'), shard_events=400, mc_workers=12)]
 
 
 def c06_stages(tier):
@@ -308,7 +308,7 @@ def fault_stages(tier):
 
 
 def c07_stages(tier):
-    st = [AT('arith-q', 'MC_AffTree_arith_q.cfg'), AT('arithaff-q', 'MC_AffTree_arithaff_q.cfg'),
+    st = [AT('arith-q', 'MC_AffTree_arith_q.cfg'), AT('arithaff-q', 'MC_AffTree_arithaff_q.cfg'), AT('arith-deep', 'MC_AffTree_arith_deep.cfg'),
           # operands that carry cached feasibility states from an earlier elimination
           HS('prunea-q', 'MC_AffTree_prunea_q.cfg')]
     if tier == 'thorough':
